@@ -3,6 +3,7 @@ import RedisVerif.Model.GrammarTable
 import RedisVerif.Model.LuaConv
 import RedisVerif.Model.LuaScript
 import RedisVerif.Model.GrammarGen
+import RedisVerif.Model.GrammarElem
 import RedisVerif.Lemmas.GrammarErrs
 import RedisVerif.Props.C16
 
@@ -10,6 +11,8 @@ import RedisVerif.Props.C16
   C16 sub-driver (pure).  One line in, one line out:
     P  <hex-arg>*     → canonical rendering of `parseCmd` (from_resp):           OK <Ctor> <tok>* | ERR <hex text> | crash
     Z  <hex-arg>*     → the same for the zero-copy parser (`parseCmdZc`)
+    PE <elem>*        → both RESP parsers on an array of arbitrary elements (`parseE`): elem = x<hex> (bulk string) |
+                        :<int> (integer) | ~ (nil bulk, simple string, error, nested array)
     LP <hex-arg>*     → the redis.call translator (`parseLua`):                  OK | ERR <hex text> | crash
     UP <hex>          → `String::from_utf8_lossy(b).to_uppercase()` as hex
     LO <hex>          → `.to_lowercase()` of the upper-cased lossy string
@@ -319,6 +322,13 @@ def showHelper (r : String × ArgKind × String) : String :=
     | _ => "std"
   s!"name={r.1} ty={r.2.2} perr={perr}"
 
+def elemArgs (ts : List String) : Option (List Elem) :=
+  ts.mapM (fun t => match t.toList with
+    | 'x' :: cs => (parseHexBytes cs).map Elem.bulk
+    | ':' :: cs => (String.ofList cs).toInt?.map Elem.int
+    | ['~'] => some Elem.other
+    | _ => none)
+
 def step (line : String) : String :=
   match tokens line with
   | "P" :: ts => match hexArgs ts with
@@ -326,6 +336,9 @@ def step (line : String) : String :=
     | none => "bad-op"
   | "Z" :: ts => match hexArgs ts with
     | some args => showRes (parseCmdZc args)
+    | none => "bad-op"
+  | "PE" :: ts => match elemArgs ts with
+    | some args => showRes (parseE args)
     | none => "bad-op"
   | "LP" :: ts => match hexArgs ts with
     | some args => showAccept (parseLua args)
